@@ -2522,6 +2522,14 @@ namespace bloch::compiler {
             throw BlochError(ErrorCategory::Semantic, node.line, node.column,
                              "the result of a 'void' call cannot be indexed or used as an index");
         }
+        // null stands for "no object": it is neither an array nor a position in one
+        auto isNullValue = [&](Expression* e) {
+            return e && inferTypeInfo(e).value == ValueType::Null;
+        };
+        if (isNullValue(node.collection.get()) || isNullValue(node.index.get())) {
+            throw BlochError(ErrorCategory::Semantic, node.line, node.column,
+                             "'null' cannot be indexed or used as an index");
+        }
     }
 
     void SemanticAnalyser::visit(ArrayLiteralExpression& node) {
